@@ -16,7 +16,7 @@ RULE = ("twin worlds from the same pre-state: world A evaluates call_batch(kwarg
 ASSUMPTIONS = ["exceptions are compared by class and original message", "stores are compared as sets of (qualified name, argument hash, result type, value, invocation list)"]
 COMPONENTS = {"real": ["call_batch / map_over_range, LocalRunnerBackend.batch_run, runner, storage backends", "fork lifetimes"],
               "stub": ["generated program", "uuid4, clock"]}
-REACH = ["under_context_arguments", "with_read_fault", "with_transient_failures", "one_shot_iterable_range", "with_warm_elements", "batches", "map_over_range", "raise_first", "with_failing_element", "with_duplicates", "with_prememoized", "empty_batches",
+REACH = ["with_sibling_partials_derived_from_the_prefix", "element_wise_world_calls_root_directly", "under_context_arguments", "with_read_fault", "with_transient_failures", "one_shot_iterable_range", "with_warm_elements", "batches", "map_over_range", "raise_first", "with_failing_element", "with_duplicates", "with_prememoized", "empty_batches",
          "partial_prefix", "restart_before_batch"]
 
 
@@ -47,7 +47,16 @@ def gen_case(seed):
         if cand:
             rfx = cand[rng.randrange(len(cand))]     # the stored memento of this element cannot be read once (reported I/O error)
     ctx = rng.choice([None, None, None, {"k": 1}, {"k": 2, "j": "a"}])      # the batch is issued through a clone with context arguments
-    return {"seed": seed, "prog": prog, "xs": xs, "via": via, "shape": shape, "read_fault_x": rfx, "ctx": ctx,
+    sweep, sib_use, b_direct = [], False, False
+    if prog["nodes"][0]["params"] == "x,y" and rng.random() < 0.6:
+        # the root has a defaulted third parameter; before the batch, further partials are derived from the keyword prefix
+        # the batch goes through (a parameter sweep: prefix.partial(z=v)), and possibly used; the element-wise world may call
+        # the root directly with all arguments instead of through the prefix - the same calls by identity
+        prog["nodes"][0]["zdef"] = True
+        sweep = [rng.randrange(1, 5) for _ in range(rng.randrange(0, 4))]
+        sib_use = rng.random() < 0.5
+        b_direct = rng.random() < 0.6
+    return {"seed": seed, "sweep": sweep, "sib_use": sib_use, "b_direct": b_direct, "prog": prog, "xs": xs, "via": via, "shape": shape, "read_fault_x": rfx, "ctx": ctx,
             "pre_via": rng.choice(["same", "same", "plain"]), "raise_first": rng.random() < 0.5, "pre": pre, "warm": warm,
             "cache": rng.random() < 0.6, "restart": rng.random() < 0.5, "backend": rng.choice(["fs", "fs", "memory"])}
 
@@ -93,7 +102,9 @@ def run_world(root, case, world_name):
             side.table["respath"] = root + "/res"
             mod = world.load_module("vtree", calltree.render(prog))
             f = getattr(mod, prog["nodes"][0]["name"])
-            if two:
+            direct = two and case.get("b_direct") and world_name == "B"
+            kw = {"y": 7} if direct else {}
+            if two and not direct:
                 f = f.partial(y=7)
             f_plain = f
             if case.get("ctx"):
@@ -103,20 +114,27 @@ def run_world(root, case, world_name):
             if do_pre:
                 for x in case["pre"]:
                     try:
-                        (f_plain if case.get("pre_via") == "plain" else f)(x=x)
+                        (f_plain if case.get("pre_via") == "plain" else f)(x=x, **kw)
                     except Exception:  # noqa
                         pass
                 side.take()
             if do_batch:
+                sibs = [(v, None if direct else f.partial(z=v)) for v in case.get("sweep") or []]
+                if case.get("sib_use"):
+                    for v, sib in sibs:
+                        try:
+                            sib(x=0) if sib is not None else f(x=0, z=v, **kw)
+                        except Exception:  # noqa
+                            pass
                 for x in case.get("warm", []):     # single calls just before: these elements are memory-cache hits in the batch
                     try:
-                        f(x=x)
+                        f(x=x, **kw)
                     except Exception:  # noqa
                         pass
                 side.take()
                 rfx = case.get("read_fault_x")
                 if rfx is not None and kind != "memory":
-                    ah = f.fn_reference().with_args(x=rfx).arg_hash
+                    ah = f.fn_reference().with_args(x=rfx, **kw).arg_hash
                     simfs.arm(world.store_roots(root, False))
                     simfs.set_read_plan(rules=[{"match": ah + ".memento", "nth": 1}])
                 if world_name == "A":
@@ -138,7 +156,7 @@ def run_world(root, case, world_name):
                     slots = []
                     for x in case["xs"]:
                         try:
-                            slots.append(_summ(f(x=x)))
+                            slots.append(_summ(f(x=x, **kw)))
                         except Exception as e:  # noqa
                             slots.append(_summ(e))
                     res = {"slots": slots}
@@ -190,6 +208,10 @@ def execute(case):
         stats["partial_prefix"] = 1
     if case["restart"] and case["backend"] != "memory":
         stats["restart_before_batch"] = 1
+    if case.get("sweep"):
+        stats["with_sibling_partials_derived_from_the_prefix"] = 1
+    if case.get("b_direct"):
+        stats["element_wise_world_calls_root_directly"] = 1
     feats = {"via": case["via"]}
     raises = case["via"] == "map_over_range" or case["raise_first"]
     if raises:
